@@ -8,11 +8,19 @@ trap 'rm -rf "$SCR"' EXIT
 REPO=${JEN_REPO:-/repo}
 sed "s#=> /repo\$#=> $REPO#" go.mod > "$SCR/go.mod"
 ID=$(python3 -c "import json,sys;print(json.load(open(sys.argv[1]))['property'])" "$1") || exit 2
-go build -modfile="$SCR/go.mod" -o "$SCR/verif" ./cmd/verif || exit 2
+go run -modfile="$SCR/go.mod" ./cmd/genapi "$REPO/jen" "$SCR/zz_api_gen.go" || exit 2
+printf '{"Replace": {"%s": "%s"}}\n' "$HERE/checks/zz_api_gen.go" "$SCR/zz_api_gen.go" > "$SCR/overlay-plain.json"
+go build -modfile="$SCR/go.mod" -overlay "$SCR/overlay-plain.json" -o "$SCR/verif" ./cmd/verif || exit 2
 BIN="$SCR/verif"
 if [ "$("$BIN" variant "$ID")" = instr ]; then
   go run -modfile="$SCR/go.mod" ./cmd/instr "$REPO/jen" "$SCR/instr" >/dev/null || exit 2
-  go build -modfile="$SCR/go.mod" -tags verif -overlay "$SCR/instr/overlay.json" -o "$SCR/verif-instr" ./cmd/verif || exit 2
+  python3 - "$SCR/instr/overlay.json" "$SCR/overlay-plain.json" "$SCR/overlay-instr.json" <<'PY' || exit 2
+import json, sys
+a = json.load(open(sys.argv[1])); b = json.load(open(sys.argv[2]))
+a["Replace"].update(b["Replace"]); json.dump(a, open(sys.argv[3], "w"))
+PY
+  go build -modfile="$SCR/go.mod" -tags verif -overlay "$SCR/overlay-instr.json" -o "$SCR/verif-instr" ./cmd/verif || exit 2
   BIN="$SCR/verif-instr"
 fi
+export VERIF_SELF="$BIN"
 "$BIN" replay "$1"
